@@ -246,7 +246,8 @@ func VerifV9ReannounceAny() {
 		b2 = n2
 	}
 	opts := verifCase(2) == 1
-	two := verifCase(2) == 1
+	layout := verifCase(3) // 0: A, B, data in one message; 1: A in an earlier datagram; 2: A, data, B, data in one message
+	two := layout == 1
 	tl := 4 + 4 + 8
 	if opts {
 		tl = 4 + 6 + 8 + 2
@@ -292,6 +293,32 @@ func VerifV9ReannounceAny() {
 		w2.u32(v1)
 		w2.u32(v2)
 		msg, err = NewDecoder(addr, w2.b).Decode(m)
+	} else if layout == 2 {
+		// data for the id on both sides of the re-announcement: each flowset is decoded with the
+		// definition in force where it stands
+		u1, u2 := verifNondetU32(), verifNondetU32()
+		w := &verifW{b: make([]byte, 20+2*tl+24)}
+		verifWriteHeader(w)
+		tset(w, a1, a2)
+		w.u16(tid)
+		w.u16(12)
+		w.u32(u1)
+		w.u32(u2)
+		tset(w, b1, b2)
+		w.u16(tid)
+		w.u16(12)
+		w.u32(v1)
+		w.u32(v2)
+		msg, err = NewDecoder(addr, w.b).Decode(m)
+		verifAssert(verifAll(err == nil, msg != nil), "packet with a re-announced template decodes")
+		verifAssert(len(msg.DataSets) == 2, "one record per data flowset")
+		f0 := msg.DataSets[0]
+		verifAssert(len(f0) == 2, "record has one entry per template field")
+		verifAssert(verifAll(f0[0].ID == a1.entry.FieldID, f0[1].ID == a2.entry.FieldID), "the record BEFORE the re-announcement is decoded with the first definition")
+		y1, oy1 := f0[0].Value.(uint32)
+		y2, oy2 := f0[1].Value.(uint32)
+		verifAssert(verifAll(oy1, oy2, y1 == u1, y2 == u2), "the first record's values")
+		msg.DataSets = msg.DataSets[1:]
 	} else {
 		w := &verifW{b: make([]byte, 20+2*tl+12)}
 		verifWriteHeader(w)
